@@ -49,7 +49,12 @@ def run(run, tier, replay=None):
                 "sharing a snake_case image, placed as model properties / parameters / enum values / schemas / operationIds through the real parser. "
                 "Scope lists (stage B for Scopes.v): 2-6 distinct names (parameters: (location, name) pairs with distinct keys) built from case / delimiter / affix variants of one base word, "
                 "reserved words (self, class, client, url), the raw-name fallback or the <name>_<location> form of an earlier member, plus random ordinary / hostile strings; a case is one list "
-                "through the real function; kind .../no-conflict = the observed python names are just the default names; distinct by hash of (scope, list)")
+                "through the real function; kind .../no-conflict = the observed python names are just the default names; distinct by hash of (scope, list). "
+                "allOf documents (stage B for ProcProps.v): 1-3 leaf object schemas and a composed schema Z = allOf of 2-4 members ($ref'd or inline, 1-4 properties each) + own properties, names drawn from 1-3 families "
+                "whose members collide after snake-casing (toDo / to_do / ToDo / to-do / toDo$ ...), kinds per family mostly from a chain merge_properties can narrow (any < string < date | enum, any < number < integer < int enum), "
+                "8 fixed documents (re-declaration that becomes the merge base after a raw-name fallback; the unchecked rename reached through a merge; the three diagnostics); kind allOf/merge/raw-fallback = some name is declared "
+                "more than once and some python name is not the default one; distinct by hash of the document description")
+    run.assumptions.append("allOf documents list the composed schema before its members (it is then attempted once by _process_models); referenced members are leaf object schemas; no defaults / descriptions on the properties of this family")
     run.assumptions.append("str.lower() final-sigma context rule is not modelled: string cases are compared modulo the sigma fold and scope name lists avoid U+03A3")
     terms, meta = [], []
     for s in strs:
